@@ -84,6 +84,17 @@ CHECKS = {
          "Does not decide intersection semantics, tie-breaking or monotonicity (value level).",
     note="Trusted: rustc MIR/type facts, call-graph construction (A-CB: no edges for embedder type parameters / std callbacks).",
  ),
+ "C20": dict(
+    technique="interval analysis with guard refinement over MIR Assert terminators and overflow-inheriting std calls, inside declared zones",
+    design_ref="DESIGN.md §4 C20",
+    text="Claimed for declared zones only (the places whose own convention is explicit wrapping/saturating/checked arithmetic): "
+         "the fixed-point operator impls and mul_div in font-types, the core reader modules of read-fonts, and the TrueType "
+         "interpreter's arithmetic helpers (hint/math.rs, engine/arith.rs, engine/round.rs). In the strict profile "
+         "(-Coverflow-checks=on -Cdebug-assertions=on, mir-opt-level=0) every overflow/negate/shift/div/bounds Assert and every "
+         "overflow-inheriting std arithmetic call in these zones is discharged from type ranges, constants, widening casts and "
+         "dominating comparisons -- for every input value. Outside the zones (~1200 overflow sites) nothing is claimed.",
+    note="Trusted: rustc's placement of Assert terminators; the interval domain (sound over-approximation, widening at loop heads). Two genuine defects in the zones were repaired (F7, F8).",
+ ),
 }
 
 NOT_APPLICABLE = {
